@@ -51,11 +51,15 @@ def bounds(tier):
         "complete_with_pruning": True,
         "configs": len(rc.configs(tier)),
         "exec_cap_per_shard": CAP[tier],
+        "exec_cap_per_complete_exploration": CAP_COMPLETE[tier],
+        "exec_cap_per_unpruned_exploration": CAP_UNPRUNED[tier],
         "horizon_parent_ops": 400,
     }
 
 
-CAP = {"quick": 20000, "thorough": 60000}
+CAP = {"quick": 20000, "thorough": 400000}  # executions per shard (all its explorations together)
+CAP_COMPLETE = {"quick": 20000, "thorough": 100000}  # per complete (pruned) exploration of one configuration / fault
+CAP_UNPRUNED = {"quick": 20000, "thorough": 60000}  # per deviation-bounded unpruned exploration (cross-check of the pruning)
 REAL_REPLAYS = {"quick": 3, "thorough": 8}
 
 
@@ -186,7 +190,7 @@ def judge(x, expected):
     return (f"C11/exception-{x.outcome[1]}", f"no fault injected but {x.outcome[1]} escapes from {x.outcome[2]}")
 
 
-def explore_config(res, c, scratch, tier, fault=None, judge_fn=None, tag="C11", dev_bound=None, budget=None):
+def explore_config(res, c, scratch, tier, fault=None, judge_fn=None, tag="C11", dev_bound=None, budget=None, cap_unpruned=None):
     from mc import vmp
 
     cfg = rc.cfg_for(scratch, c)
@@ -237,17 +241,20 @@ def explore_config(res, c, scratch, tier, fault=None, judge_fn=None, tag="C11", 
         budget = [CAP[tier]]
     # the complete (pruned) exploration first: it is the one that covers the whole schedule tree; the unpruned
     # deviation-bounded one gets what is left of the shard's budget
-    e2 = vmp.Explorer(cfg, fault=fault, bound=None, on_exec=on_exec, max_execs=max(1, budget[0]), prune=True).explore()
+    e2 = vmp.Explorer(cfg, fault=fault, bound=None, on_exec=on_exec, max_execs=max(1, min(CAP_COMPLETE[tier], budget[0])), prune=True).explore()
     budget[0] -= e2.execs
-    e1 = vmp.Explorer(cfg, fault=fault, bound=b, on_exec=on_exec, max_execs=max(1, budget[0] // 2)).explore()
+    e1 = vmp.Explorer(cfg, fault=fault, bound=b, on_exec=on_exec, max_execs=max(1, min(cap_unpruned or CAP_UNPRUNED[tier], budget[0] // 2))).explore()
     budget[0] -= e1.execs
     res.count("executions_bounded_unpruned", e1.execs)
     res.count("executions_complete_pruned", e2.execs)
     res.count("states", len(e1.states | e2.states))
     res.count("transitions", e1.transitions + e2.transitions)
-    if e1.capped or e2.capped:
+    if e2.capped:
+        # the complete exploration did not finish: this configuration / fault is not covered exhaustively
         res.count("explorations_capped")
         res.seen("capped_configs", rc.cfg_key(c) + (str(fault) if fault else ""))
+    if e1.capped:
+        res.count("unpruned_cross_checks_capped")
     if e2.opaque:
         res.count("explorations_with_pruning_disabled")
     return cfg, picks
@@ -316,6 +323,7 @@ def finalize(results, tier):
             "traces_validated_against_impl": st.get("traces_validated_against_impl", 0),
             "executions_with_timeout": st.get("executions_with_timeout", 0),
             "explorations_capped": st.get("explorations_capped", 0),
+            "unpruned_cross_checks_capped": st.get("unpruned_cross_checks_capped", 0),
         }
     }
     if st.get("executions_with_timeout", 0) == 0:
